@@ -2,34 +2,35 @@ package main
 
 import (
 	"fmt"
-	"os"
-	"strconv"
-	"time"
+	"strings"
 
 	"github.com/ajitpratap0/GoSQLX/pkg/gosqlx"
-	"github.com/ajitpratap0/GoSQLX/pkg/linter"
-	"github.com/ajitpratap0/GoSQLX/pkg/linter/rules/whitespace"
-	"github.com/ajitpratap0/GoSQLX/pkg/sql/security"
-	"verif/internal/costmeas"
+	"verif/internal/astdump"
 )
 
 func main() {
-	n, _ := strconv.Atoi(os.Args[2])
-	in, err := costmeas.Render(os.Args[1], "", n)
-	if err != nil {
-		panic(err)
+	for _, s := range []string{
+		"ALTER TABLE t ADD COLUMN c INT",
+		"ALTER TABLE t ADD c INT",
+		"ALTER TABLE s.t ADD COLUMN IF NOT EXISTS \"c d\" VARCHAR(10) NOT NULL DEFAULT 'x'",
+		"ALTER TABLE t DROP COLUMN c",
+		"ALTER TABLE t DROP COLUMN IF EXISTS c CASCADE",
+		"ALTER TABLE t DROP c",
+		"ALTER TABLE t RENAME TO u",
+		"ALTER TABLE t RENAME COLUMN a TO b",
+		"ALTER TABLE t ADD CONSTRAINT uq UNIQUE (a, b)",
+		"ALTER TABLE t DROP CONSTRAINT uq",
+		"ALTER TABLE t ALTER COLUMN a SET NOT NULL",
+		"ALTER TABLE t ALTER COLUMN a SET DEFAULT 1",
+		"ALTER TABLE t ALTER COLUMN a TYPE BIGINT",
+		"ALTER TABLE t MODIFY COLUMN a BIGINT",
+	} {
+		t, err := gosqlx.Parse(s)
+		if err != nil {
+			e := strings.Split(err.Error(), "\n")[0]
+			fmt.Printf("REJECT %-70s %s\n", s, e[strings.Index(e, "column 0:")+9:])
+			continue
+		}
+		fmt.Printf("ok     %-70s %s\n        SQL=%q\n", s, astdump.Dump(t.Statements), t.SQL())
 	}
-	step := func(name string, f func()) {
-		t0 := time.Now()
-		f()
-		fmt.Printf("%-22s %8.2fs\n", name, time.Since(t0).Seconds())
-	}
-	fmt.Println(os.Args[1], len(in))
-	step("parse", func() { _, err := gosqlx.Parse(in); fmt.Print(err != nil, " ") })
-	step("format", func() { _, _ = gosqlx.Format(in, gosqlx.FormatOptions{}) })
-	step("recovery", func() { _, _ = gosqlx.ParseWithRecovery(in) })
-	step("scansql", func() { _ = security.NewScanner().ScanSQL(in) })
-	step("lint L001+L010", func() {
-		_ = linter.New(whitespace.NewTrailingWhitespaceRule(), whitespace.NewRedundantWhitespaceRule()).LintString(in, "x.sql")
-	})
 }
